@@ -890,3 +890,64 @@ def check_fold(R, drv, tier, want=("spec", "panic")):
     R.sample({"kernel": "K-fold", "exits": len(exits), "property": "static_eval_rq_operator returns the folded literal exactly in the documented cases (not/neg/eq/ne/and/or on literals of equal kind, null ?? x) and the unchanged operator otherwise, for every operator name (z3 string), every i64 and bool",
               "wall_s": round(time.time() - t0, 2)})
     core.log(f"[K-fold] {len(exits)} exits in {time.time()-t0:.1f}s")
+
+
+def check_sstr(R, drv, tier):
+    """K-sstr: translate_query_sstring (an s-string used as a relation) never panics, for every well-formed UTF-8 text of
+    at most L bytes; byte-level string model in bytestr.py"""
+    import bytestr
+    t0 = time.time()
+    L = 10 if tier == "quick" else 14
+    try:
+        funcs = kernels.load(r"^translate_query_sstring($|::promoted)")
+        s_term = z3.Const("sstring_text", bytestr.SEQ)
+        mt = z3.Bool("regex_matches_prefix")
+        pre = bytestr.utf8_valid(s_term, L)
+        I, exits = kernels.run_fn(funcs, "translate_query_sstring", [SOpaque("items", False), SOpaque("ctx", False)], pre,
+                                  stubs=bytestr.stubs(s_term, mt), unwind=4, timeout_s=120, opaque_sinks=True)
+    except Inconclusive as e:
+        R.engine_error(f"K-sstr: {e}")
+        return
+    _account(R, I, "K-sstr")
+    rets = [e for e in exits if e.kind == "return"]
+    if len(rets) < 2:
+        R.engine_error(f"K-sstr: vacuous - {len(rets)} return exits (expected the accepting and the rejecting path)")
+    nice = [z3.And(z3.UGE(s_term[i], 0x20), s_term[i] != 0x22, s_term[i] != 0x27, s_term[i] != 0x5C, s_term[i] != 0x7B, s_term[i] != 0x7D, s_term[i] != 0x7F)
+            for i in range(L)]
+    for e in exits:
+        if e.kind == "return":
+            continue
+        if e.kind != "panic":
+            R.engine_error(f"K-sstr: exit {e.kind} {e.msg}")
+            continue
+        v, model, dt = check(list(e.pc) + nice, z3.BoolVal(True))
+        if v != "sat":
+            v2, model2, dt2 = check(e.pc, z3.BoolVal(True))
+            dt += dt2
+            if v2 == "sat":
+                v, model = v2, model2
+        R.q(v, dt)
+        if v == "unknown":
+            R.engine_error("K-sstr: unknown")
+        if v != "sat":
+            continue
+        data = bytestr.model_bytes(model, s_term, L)
+        try:
+            text = data.decode("utf-8")
+        except UnicodeDecodeError:
+            R.engine_error(f"K-sstr: model {data!r} is not UTF-8 (encoding of well-formedness is wrong)")
+            continue
+        # the model describes the text AFTER trimming was over-approximated: surround nothing, use the text itself
+        body = text.replace("{", "{{").replace("}", "}}")
+        q = '"' if '"' not in body else ("'" if "'" not in body else '"""')
+        prql = f"from s{q}{body}{q}\n"
+        r = drv.compile(prql, "sql.sqlite")
+        if r.get("panic"):
+            R.violation({"engine": "mirsym", "kernel": "K-sstr", "kind": "panic", "msg": r["panic"].split(" @ ")[0][:60]},
+                        f"K-sstr: an s-string relation with the text {text!r} ({data.hex()}) panics: {r['panic']}", {"prql": prql, "text_hex": data.hex()})
+        else:
+            R.cov.setdefault("unobservable_models", []).append(["K-sstr", data.hex(), e.msg, str(r.get("errors") or r.get("sql"))[:120]])
+    R.sample({"kernel": "K-sstr", "exits": len(exits), "property": f"no panic exit of translate_query_sstring is reachable for any well-formed UTF-8 text of <= {L} bytes "
+              "(trim over-approximated by any sub-slice on character boundaries; Regex::is_match unconstrained)", "wall_s": round(time.time() - t0, 2)})
+    R.cov.setdefault("kernel_bounds", {})["K-sstr"] = f"UTF-8 texts of at most {L} bytes (every byte value, exact well-formedness); one s-string without interpolation"
+    core.log(f"[K-sstr] {len(exits)} exits in {time.time()-t0:.1f}s")
